@@ -88,7 +88,8 @@ func vxRunBuild(cfg vxRunCfg, id string, fs *env.FS, chip string, db string, nev
 	switch cfg.Kind {
 	case "hwmon":
 		w.dev = fs.NewDev(chip, 1, cfg.OrigPwm, cfg.OrigMode, !cfg.NoEnable, true)
-		fc.HwMon = &configuration.HwMonFanConfig{Platform: "vx", Index: 1, RpmChannel: 1, PwmChannel: 1,
+		// every fake chip is its own platform (fans of a real machine sit on different hwmon devices)
+		fc.HwMon = &configuration.HwMonFanConfig{Platform: "vx-" + chip, Index: 1, RpmChannel: 1, PwmChannel: 1,
 			SysfsPath: filepath.Dir(w.dev.Pwm), RpmInputPath: w.dev.Rpm, PwmPath: w.dev.Pwm, PwmEnablePath: w.dev.Enable}
 	case "file":
 		w.dev = &env.Dev{FS: fs}
